@@ -19,7 +19,7 @@ AST of a type (dict, key "k"):
   SEQUENCE / SET / CHOICE {comps [ {name, tag, type, optional, default, self} ], extpos (index of "..." | None)}
   SEQUENCE OF / SET OF {cons, smin, smax, sext, elem}
 """
-import re
+import re, os
 from vlib import Rng
 from widegen import STRS, INT_CONS, SIZE_CONS, ALPHA
 
@@ -204,6 +204,80 @@ def render(t):
 def generate(rng, n, ntypes=5, features=None, prefix="W", maxdepth=3):
     g = WideGen(rng, maxdepth=maxdepth, features=FEATURES if features is None else features)
     return [g.module("%s%d" % (prefix, i), ntypes) for i in range(n)]
+
+
+# ---------------------------------------------------------------------------
+# running a driver that may crash or hang on single command lines
+
+import subprocess, select, time, tempfile
+from vlib import SAN_ENV
+
+WIDE_ENV = dict(SAN_ENV, ASAN_OPTIONS=SAN_ENV["ASAN_OPTIONS"] + ":hard_rss_limit_mb=3000")
+
+
+def run_robust(exe, lines, line_timeout=20, env=None):
+    """feed command lines to a line-protocol driver; a line that kills the driver
+    yields "CRASH", one that does not answer within line_timeout seconds "HANG";
+    the driver is restarted on the next line.
+    Returns (outputs, events) with events = [(line index, "CRASH"|"HANG"|"EXIT", rc, stderr tail)]"""
+    outs, events = [], []
+    i = 0
+    env = env or WIDE_ENV
+    while i < len(lines):
+        ef = tempfile.TemporaryFile()
+        p = subprocess.Popen([exe], stdin=subprocess.PIPE, stdout=subprocess.PIPE, stderr=ef, env=env)
+        # the driver reads line by line and flushes after every command: feed everything from a thread-free
+        # non-blocking loop (the pipe buffer is small compared with the input)
+        data = ("\n".join(lines[i:]) + "\n").encode()
+        os.set_blocking(p.stdin.fileno(), False)
+        os.set_blocking(p.stdout.fileno(), False)
+        sent, buf, got, hang = 0, b"", 0, False
+        last = time.time()
+        want = len(lines) - i
+        while got < want:
+            wl = [p.stdin] if sent < len(data) else []
+            r, w, _ = select.select([p.stdout], wl, [], 1.0)
+            if w:
+                try:
+                    sent += os.write(p.stdin.fileno(), data[sent:sent + 65536])
+                    if sent >= len(data):
+                        p.stdin.close()
+                except BlockingIOError:
+                    pass
+                except (BrokenPipeError, OSError):
+                    sent = len(data)
+            if r:
+                chunk = os.read(p.stdout.fileno(), 1 << 16)
+                if not chunk:
+                    break           # driver died
+                buf += chunk
+                while b"\n" in buf:
+                    l, buf = buf.split(b"\n", 1)
+                    outs.append(l.decode("utf-8", "replace"))
+                    got += 1
+                    last = time.time()
+            elif time.time() - last > line_timeout:
+                hang = True
+                break
+        if hang:
+            p.kill()
+        try:
+            if sent < len(data):
+                p.stdin.close()
+        except OSError:
+            pass
+        rc = p.wait()
+        ef.seek(0)
+        err = ef.read().decode("utf-8", "replace")[-4000:]
+        ef.close()
+        if got >= want:
+            if rc != 0:
+                events.append((len(lines) - 1, "EXIT", rc, err))
+            break
+        events.append((i + got, "HANG" if hang else "CRASH", rc, err))
+        outs.append("HANG" if hang else "CRASH")
+        i += got + 1
+    return outs[:len(lines)], events
 
 
 # ---------------------------------------------------------------------------
